@@ -49,10 +49,12 @@ verify_salt (const char *setting, size_t set_size)
     {
       if (!check_salt_char (setting[i]))
         {
-          /* Salt is terminated properly.
-             Following characters don't matter.  */
+          /* Salt is terminated properly.  The characters that follow
+             (the hash of an earlier call) are not examined, but they
+             must not contain another '$': yescrypt_r takes everything
+             up to the last '$' as the salt.  */
           if (setting[i - 1] == '$')
-            break;
+            return strchr (setting + i, '$') == NULL;
 
           /* Salt has an invalid character.  */
           return 0;
